@@ -253,17 +253,45 @@ def slice_back(fn, starts, through_calls=True, max_items=20000, stop_at_calls=()
     return sl
 
 
+def mut_targets(fn, local, depth=0):
+    """places a `&mut` value held in `local` may point to, following moves, unsizing casts and reborrows"""
+    cache = getattr(fn, '_mt_cache', None)
+    if cache is None:
+        cache = fn._mt_cache = {}
+    if local in cache:
+        return cache[local]
+    cache[local] = []
+    out = []
+    if depth < 8:
+        for s in defs(fn).get(local, ()):
+            if s['kind'] != 'stmt' or s['lhs'].p:
+                continue
+            rv = s['rv']
+            if rv['k'] in ('ref', 'rawptr') and rv.get('mut', rv['k'] == 'rawptr'):
+                p = Place(rv['p'])
+                out.append(p)
+                if p.has_deref():
+                    for t in mut_targets(fn, p.l, depth + 1):
+                        q = Place({'l': t.l, 'p': list(t.p) + [e for e in p.p if isinstance(e, dict) and 'f' in e]})
+                        out.append(q)
+            elif rv['k'] in ('use', 'cast'):
+                q = op_place(rv['a'])
+                if q is not None and not q.p:
+                    out += mut_targets(fn, q.l, depth + 1)
+    cache[local] = out
+    return out
+
+
 def _mut_arg_defs(fn):
     m = getattr(fn, '_mutargdefs', None)
     if m is not None:
         return m
     m = defaultdict(list)
-    mb = mut_borrows(fn)
     for c in fn.calls():
         for a in c.args:
             p = op_place(a)
-            if p is not None and not p.p and p.l in mb:
-                for target in mb[p.l]:
+            if p is not None and not p.p:
+                for target in mut_targets(fn, p.l):
                     m[target.l].append((c, target))
     fn._mutargdefs = m
     return m
@@ -625,3 +653,88 @@ def reachable_fns(F, roots, through_closures=True):
 
 def api_roots(F, impl_self_suffix='::Memvid'):
     return [f for f in F.fns.values() if f.r.get('exported') and f.r.get('pub') and f.r.get('impl_self', '').endswith(impl_self_suffix)]
+
+
+# ----------------------------------------------------------------- tiny constant evaluator
+import re as _re
+_ARR = _re.compile(r'\[[^;\]]+; (\d+)\]')
+
+
+def const_eval(fn, op, at=None, depth=0):
+    """integer value of an operand/Place if it is a compile-time constant expression of the function body
+    (constants, + - * on constants, casts, `.len()` of a fixed-size array, checked-arithmetic tuples); else None"""
+    if depth > 24:
+        return None
+    if isinstance(op, dict) and 'k' in op:
+        v = op['k'].get('v')
+        return v if isinstance(v, int) and not isinstance(v, bool) else None
+    p = op if isinstance(op, Place) else op_place(op)
+    if p is None:
+        return None
+    d = defs(fn)
+    pf = p.fields()
+    sites = [s for s in d.get(p.l, ()) if _overlap(s['lhs'].fields(), pf) and
+             (at is None or _def_reaches(fn, s['bb'], s['idx'], at[0], at[1]))]
+    if len(sites) != 1:
+        return None
+    s = sites[0]
+    pos = (s['bb'], s['idx'])
+    if s['kind'] == 'call':
+        c = s['call']
+        if c.name == 'len' and c.args:
+            return _array_len(fn, c.args[0], pos, 0)
+        if c.name in ('min', 'max') and len(c.args) == 2:
+            a, b = const_eval(fn, c.args[0], pos, depth + 1), const_eval(fn, c.args[1], pos, depth + 1)
+            if a is not None and b is not None:
+                return min(a, b) if c.name == 'min' else max(a, b)
+        return None
+    rv = s['rv']
+    k = rv['k']
+    if k == 'use':
+        return const_eval(fn, rv['a'], pos, depth + 1)
+    if k == 'cast':
+        return const_eval(fn, rv['a'], pos, depth + 1)
+    if k == 'bin':
+        a, b = const_eval(fn, rv['a'], pos, depth + 1), const_eval(fn, rv['b'], pos, depth + 1)
+        if a is None or b is None:
+            return None
+        opn = rv['op'].replace('WithOverflow', '').replace('Unchecked', '')
+        try:
+            return {'Add': a + b, 'Sub': a - b, 'Mul': a * b, 'Div': a // b if b else None, 'Shl': a << b, 'Shr': a >> b,
+                    'BitOr': a | b, 'BitAnd': a & b}.get(opn)
+        except Exception:
+            return None
+    if k == 'un' and rv['op'] == 'PtrMetadata':
+        return _array_len(fn, rv['a'], pos, 0)
+    return None
+
+
+def _array_len(fn, op, at, depth):
+    if depth > 10:
+        return None
+    p = op_place(op)
+    if p is None:
+        if 'k' in op:
+            m = _ARR.search(op['k'].get('ty', ''))
+            return int(m.group(1)) if m else None
+        return None
+    if not p.p or p.p == ['*']:
+        m = _ARR.search(fn.local_ty(p.l))
+        if m and 'Vec<' not in fn.local_ty(p.l):
+            return int(m.group(1))
+    d = defs(fn)
+    sites = [s for s in d.get(p.l, ()) if s['kind'] == 'stmt' and not s['lhs'].p and _def_reaches(fn, s['bb'], s['idx'], at[0], at[1])]
+    if len(sites) != 1:
+        return None
+    rv = sites[0]['rv']
+    pos = (sites[0]['bb'], sites[0]['idx'])
+    if rv['k'] in ('use', 'cast'):
+        return _array_len(fn, rv['a'], pos, depth + 1)
+    if rv['k'] in ('ref', 'rawptr'):
+        q = Place(rv['p'])
+        if not q.fields():
+            m = _ARR.search(fn.local_ty(q.l))
+            if m and 'Vec<' not in fn.local_ty(q.l):
+                return int(m.group(1))
+            return _array_len(fn, {'c': rv['p']}, pos, depth + 1)
+    return None
